@@ -537,6 +537,10 @@ def write_doc(ctx, spec):
         import contextlib
         import io
         with contextlib.redirect_stdout(io.StringIO()):
+            if spec.get("precision", 4) % 3 == 0:
+                # every file the writer produces has to be valid, also the one a REUSED writer object produces
+                ctx.tag("doc/second-write-of-one-writer")
+                w.write_to_file(path + ".first", OverwriteExistingFile.ALWAYS)
             w.write_to_file(path, OverwriteExistingFile.ALWAYS)
     except Exception as e:  # noqa
         return "write", e
